@@ -22,7 +22,7 @@ claimed = {
          "expression-shape matching + must-call + abstract interpretation of magnitudes", "§4 C08 / §10.10"),
  "C09": ("narrow structural clauses only (level other): inputs reduced first (full-range loop, only reduction results reach the sponge); permutation is a function (R1/W1 of the s-box reductions); sibling constant tables agree and are canonical; the sponge absorbs in overwrite mode and squeezes from the rate part only (loop bounded by SPONGE_RATE). Equality with plonky2 for all inputs is not decided.",
          "origin analysis + constant-table comparison from type-checked syntax", "§4 C09"),
- "C10": ("narrow structural clauses only (level other): the injectivity half of the property — limb packing in HashNoPad/HashOrNoop is Σ limb_k·base^k with constant base ≥ 2^64, exponent = limb index, bounded limb count with base^T ≤ r; ToVec chunks the canonical decomposition into consecutive disjoint ≤63-bit chunks; MulAcc accumulator discipline at every MulAcc site of the poseidon package (builder-independent results). Numeric agreement of the BN254 Poseidon permutation/sponge/shortcut with the reference PoseidonBN128 is NOT decided (no sound static argument in reach).",
+ "C10": ("narrow structural clauses only (level other): the injectivity half of the property — limb packing in HashNoPad/HashOrNoop is Σ limb_k·base^k with constant base ≥ 2^64, exponent = limb index, bounded limb count with base^T ≤ r; ToVec chunks the canonical decomposition into consecutive disjoint ≤63-bit chunks; MulAcc accumulator discipline at every MulAcc site of the poseidon package (builder-independent results); a rate lane is overwritten only by a limb packed from a non-empty chunk (overwrite-mode absorption). Numeric agreement of the BN254 Poseidon permutation/sponge/shortcut with the reference PoseidonBN128 is NOT decided (no sound static argument in reach).",
          "recurrence extraction from SSA phis + constant evaluation of package initialisers + slice-bound reasoning + ownership/liveness analysis of MulAcc accumulators", "§4 C10 / §10.6 / §10.8"),
  "C11": ("order + binding (level other): the observe/squeeze events of GetChallenges∘GetFriChallenges are totally ordered in plonky2's reference order, openings observed in content order, every transcript-bound leaf observed with full coverage, ObserveElement clears the output buffer, the challenger is never updated through a copy. The sponge arithmetic over arbitrary histories is not decided.",
          "event-sequence extraction over the SSA CFG (dominance order) + content-sequence analysis", "§4 C11"),
